@@ -53,6 +53,8 @@ class Unit:
         self.casts = {}
         self.lemmas = []
         self.lost_hints = {}
+        self.canaries = []
+        self.canary = False
 
     def emit(self, text, origin):
         for l in text.split("\n"):
@@ -95,9 +97,10 @@ class FnSpec:
         self.inserts = []  # (where, nth, needle, [lines])
 
 
-def build(unit_path, repo):
+def build(unit_path, repo, canary=False):
     tmpl = open(unit_path).read().split("\n")
     u = Unit(os.path.splitext(os.path.basename(unit_path))[0])
+    u.canary = canary
     groups = []
     i = 0
     n = len(tmpl)
@@ -459,9 +462,11 @@ def _splice(u, text, spec, file, line0, name, where):
             c.lines.append(len(u.out))
 
     # signature
+    first_line = len(u.out)
     emit_src(sig, 0)
     last_kind = None
-    for c in spec.sig:
+    sig_clauses = list(spec.sig)
+    for c in sig_clauses:
         emit_clause((c.kind + " ") if c.kind != last_kind else "    ", c)
         last_kind = c.kind
     # body with insertions
@@ -483,6 +488,37 @@ def _splice(u, text, spec, file, line0, name, where):
             _emit_insert(u, payload, name, spec, where, fnrec)
             pos = off
     emit_src(body[pos:], body_open + pos)
+    if getattr(u, "canary", False) and any(c.kind == "requires" for c in spec.sig):
+        # vacuity canary (DESIGN 3.10): a twin of the function, same preconditions and body, with `ensures false`,
+        # which must FAIL if the precondition is satisfiable and the axioms are consistent.  Nobody calls the twin.
+        twin = [l for l, _ in u.out[first_line:]]
+        twin[0] = re.sub(r"\bfn\s+%s\b" % re.escape(name), "fn %s__canary" % name, twin[0], count=1)
+        # drop the original's ensures clauses, keep requires; add `ensures false`
+        out_lines, in_ens, done = [], False, False
+        for l in twin:
+            st = l[len(TAG):].strip() if l.startswith(TAG) else None
+            if st is not None and not done:
+                if st.startswith("ensures "):
+                    in_ens = True; continue
+                if in_ens and not st.startswith(("requires ", "invariant", "decreases")) and not l[len(TAG):].startswith("    {"):
+                    # continuation of ensures
+                    if re.match(r"(requires|invariant|decreases)\b", st):
+                        in_ens = False
+                    else:
+                        continue
+            if not done and l.strip().startswith("{") :
+                out_lines.append(TAG + "    ensures false,")
+                done = True
+            out_lines.append(l)
+        cc = Clause("ensures", "__canary__", ["__canary__"], "false", name)
+        cc.unit = u.name
+        for l in out_lines:
+            if l == TAG + "    ensures false,":
+                u.out.append((l, ("clause", cc)))
+                cc.lines.append(len(u.out))
+            else:
+                u.out.append((l, ("canary", name)))
+        u.canaries.append(name)
 
 
 _MARK = re.compile(r"\s*//\[([^\]|]+)(?:\|([^\]]*))?\]\s*$")
